@@ -996,6 +996,13 @@ func (c *client) metaLookupForTable(ctx context.Context,
 			continue
 		}
 
+		if !bytes.Equal(table, fullyQualifiedTable(reg)) {
+			// The scanned range [table, table.) also holds the rows of tables
+			// like "table-2": '-' sorts between ',' and '.'. Those are not
+			// regions of this table.
+			continue
+		}
+
 		regions = append(regions, regionInfoAndAddr{regionInfo: reg, addr: addr})
 	}
 
